@@ -49,7 +49,11 @@ func resolveRedisRoles(c *Ctx) *redisRoles {
 		ps, rs := sigOf(fn)
 		switch {
 		case len(ps) == 1 && len(rs) == 1 && namedOf(ps[0]) == r.recordT && isByteSlice(rs[0]) && !fn.Object().Exported():
-			r.encode = fn
+			// the encoder is the function that marshals (it calls the record->proto conversion); a helper that stamps a
+			// version and then calls the encoder has the same signature
+			if r.encode == nil || callsByName(fn, "Record2protoRecord") {
+				r.encode = fn
+			}
 		case len(ps) == 2 && len(rs) == 1 && ir.IsNamed(rs[0], "time", "Duration") && ir.IsNamed(ps[1], "time", "Time"):
 			r.expiration = fn
 		case len(ps) == 1 && len(rs) == 1 && ir.IsErrorType(ps[0]) && ir.IsErrorType(rs[0]):
@@ -743,12 +747,12 @@ func (c *Ctx) redisClassEdges(r *redisRoles, r1, r2 string) {
 	viaMap := func(fn *ssa.Function, cmd string) bool {
 		ok := false
 		for _, f := range withClosures(fn) {
-			for _, ret := range ir.Returns(f) {
+			for _, e := range ir.ExitPoints(f) {
 				idx := ir.ErrResultIndex(f)
 				if idx < 0 {
 					continue
 				}
-				if call, isCall := ir.Resolve(ir.ResultValue(ret, idx)).(*ssa.Call); isCall && ir.StaticCallee(call) == r.mapErr {
+				if call, isCall := ir.Resolve(e.Result(idx)).(*ssa.Call); isCall && ir.StaticCallee(call) == r.mapErr {
 					// the mapped error is the command's error
 					if ex, isEx := ir.Resolve(call.Call.Args[0]).(*ssa.Extract); isEx {
 						if res, isRes := ex.Tuple.(*ssa.Call); isRes {
@@ -783,10 +787,11 @@ func (c *Ctx) redisClassEdges(r *redisRoles, r1, r2 string) {
 		fn := r.storage["CasByVersion"]
 		ok := false
 		for _, f := range withClosures(fn) {
-			for _, ret := range ir.Returns(f) {
+			for _, e := range ir.ExitPoints(f) {
 				idx := ir.ErrResultIndex(f)
-				if idx >= 0 && sentinel(ir.ResultValue(ret, idx)) == "ErrConflict" && hasFactCmp(ret.Block(), func(cm ir.Cmp) bool {
-					return cm.Op == token.NEQ && ir.LoadedField(cm.X) == r.recVersion && ir.LoadedField(cm.Y) == r.recVersion
+				if idx >= 0 && sentinel(e.Result(idx)) == "ErrConflict" && e.HasFact(func(ft ir.Fact) bool {
+					cm, isCmp := ft.Cmp()
+					return isCmp && cm.Op == token.NEQ && ir.LoadedField(cm.X) == r.recVersion && ir.LoadedField(cm.Y) == r.recVersion
 				}) {
 					ok = true
 				}
@@ -799,46 +804,30 @@ func (c *Ctx) redisClassEdges(r *redisRoles, r1, r2 string) {
 			if idx < 0 {
 				continue
 			}
-			for _, ret := range ir.Returns(f) {
-				var check func(v ssa.Value, from, to *ssa.BasicBlock)
-				check = func(v ssa.Value, from, to *ssa.BasicBlock) {
-					if p, isPhi := v.(*ssa.Phi); isPhi {
-						for i, e := range p.Edges {
-							check(e, p.Block().Preds[i], p.Block())
+			for _, e := range ir.ExitPoints(f) {
+				if sentinel(e.Result(idx)) != "ErrConflict" {
+					continue
+				}
+				okEdge := false
+				for _, ft := range e.Facts() {
+					if cm, isCmp := ft.Cmp(); isCmp {
+						if cm.Op == token.NEQ && ir.LoadedField(cm.X) == r.recVersion && ir.LoadedField(cm.Y) == r.recVersion {
+							okEdge = true
 						}
-						return
-					}
-					if sentinel(v) != "ErrConflict" {
-						return
-					}
-					var facts []ir.Fact
-					if from != nil {
-						facts = append(ir.Facts(from), edgeFacts(from, to)...)
-					} else {
-						facts = ir.Facts(ret.Block())
-					}
-					okEdge := false
-					for _, ft := range facts {
-						if cm, isCmp := ft.Cmp(); isCmp {
-							if cm.Op == token.NEQ && ir.LoadedField(cm.X) == r.recVersion && ir.LoadedField(cm.Y) == r.recVersion {
-								okEdge = true
-							}
-							if cm.Op == token.EQL {
-								for _, side := range []ssa.Value{cm.X, cm.Y} {
-									if cv := ir.ConstVal(ir.Resolve(side)); cv != nil && cv.Kind() == constant.String && constant.StringVal(cv) == "redis: transaction failed" {
-										okEdge = true
-									}
+						if cm.Op == token.EQL {
+							for _, side := range []ssa.Value{cm.X, cm.Y} {
+								if cv := ir.ConstVal(ir.Resolve(side)); cv != nil && cv.Kind() == constant.String && constant.StringVal(cv) == "redis: transaction failed" {
+									okEdge = true
 								}
 							}
 						}
-						ff := ft.StripNot()
-						if call, isCall := ff.Cond.(*ssa.Call); isCall && ff.True && strings.HasSuffix(ir.CalleeFullName(call), "errors.Is") {
-							okEdge = true
-						}
 					}
-					c.Decide(r1, f, "ErrConflict only for a stored record with another version", ret, okEdge, "CasByVersion reports ErrConflict on a path where no stored record was compared (nor the transaction lost): for a missing key the contract and the other backend say ErrNotExist")
+					ff := ft.StripNot()
+					if call, isCall := ff.Cond.(*ssa.Call); isCall && ff.True && strings.HasSuffix(ir.CalleeFullName(call), "errors.Is") {
+						okEdge = true
+					}
 				}
-				check(ir.Resolve(ir.ResultValue(ret, idx)), nil, nil)
+				c.Decide(r1, f, "ErrConflict only for a stored record with another version", e.Ret, okEdge, "CasByVersion reports ErrConflict on a path where no stored record was compared (nor the transaction lost): for a missing key the contract and the other backend say ErrNotExist")
 			}
 		}
 	}
@@ -846,12 +835,13 @@ func (c *Ctx) redisClassEdges(r *redisRoles, r1, r2 string) {
 	{
 		fn := r.storage["Create"]
 		found := false
-		for _, ret := range ir.Returns(fn) {
-			if sentinel(ir.ResultValue(ret, 1)) != "ErrExist" {
+		for _, e := range ir.ExitPoints(fn) {
+			ret := e.Ret
+			if sentinel(e.Result(1)) != "ErrExist" {
 				continue
 			}
 			found = true
-			v := ir.Resolve(ir.ResultValue(ret, 0))
+			v := ir.Resolve(e.Result(0))
 			okV := false
 			if ir.LoadedField(v) == r.recVersion {
 				// of a record read from the storage
@@ -1020,4 +1010,17 @@ func (c *Ctx) putReturnsOwnRecord(rule string, fn *ssa.Function, encode *ssa.Fun
 		}
 		c.Decide(rule, fn, "returns the record it wrote", ret, ok, "the operation returns a record read back from the storage instead of the one it wrote: a concurrent writer in between makes a successful write report somebody else's version and value (the same version is handed to several writers)")
 	}
+}
+
+// callsByName reports whether fn calls a function of that (exported API) name.
+func callsByName(fn *ssa.Function, name string) bool {
+	found := false
+	ir.Instrs(fn, func(in ssa.Instruction) {
+		if call, ok := in.(ssa.CallInstruction); ok {
+			if cal := ir.StaticCallee(call); cal != nil && cal.Name() == name {
+				found = true
+			}
+		}
+	})
+	return found
 }
